@@ -31,6 +31,11 @@ CONSTANTS
   A1Fixed = TRUE
   A13Fixed = TRUE
   NoDupWait = TRUE
+  Roles = {%(roles)s}
+  MaxRoleChanges = %(mrc)d
+  AofDelay = %(aofdelay)d
+  WaitLeader = 3
+  ReArm = 1
   Turns = {"any"}
   Lag = %(lag)s
 VIEW view
@@ -169,7 +174,7 @@ def run(prop, tier, seed):
         quick = tier == "quick"
         t0 = time.time()
         # (1) exhaustive design check
-        mc = MC_CFG % {"maxreq": 3 if quick else 4, "maxnow": 3 if quick else 4, "lag": "FALSE",
+        mc = MC_CFG % {"maxreq": 3 if quick else 4, "maxnow": 3 if quick else 4, "lag": "FALSE", "roles": '"leader"', "mrc": 0, "aofdelay": 100,
                        "lockflags": '"show", "update", "showupdate", "conc", "prio"'}
         r = vtlc.run_tlc(os.path.join(VERIF, "spec"), "LockEngine", mc, os.path.join(wd, "mc"), workers=engine.NCPU,
                          timeout=300 if quick else 2400)
